@@ -263,6 +263,9 @@ class FrameDomain(EventsMixin, Domain):
     d = v.d
     if isinstance(d, tuple) and d[0] == 'where' and n == 1:
       return [V(d[1])]
+    if isinstance(d, tuple) and d[0] == 'listof':
+      # a sequence of index arrays of one provenance, unpacked
+      return [V(d[1]) for _ in range(n)]
     if is_idx(d):
       return [V(d) for _ in range(n)]
     return [V(UNK) for _ in range(n)]
